@@ -251,9 +251,29 @@ def percpu(chk, repo):
     chk.ob("R08.5", pv.qualname + ".__getitem__", "index bounded by the CPU "
            "count", ok, gi, "0 <= key < cpu_no, else IndexError")
     col = repo.func(A + "ArrayMap.collect")
-    ok = bool(find("position = (position + 7) // 8 * 8", col, mode="stmt"))
+    # the last re-definition of the running position from itself, folded for
+    # every position 0..64: it must be the next multiple of 8 (whatever the
+    # idiom: (p + 7) // 8 * 8, (p + 7) & -8, -(-p // 8) * 8 ...)
+    ok, why, at = False, "no statement rounds the running position", col
+    ev = Evaluator(repo, col._module)
+    for st in [s for s in walk_no_nested(col) if isinstance(s, ast.Assign)
+               and len(s.targets) == 1 and isinstance(s.targets[0], ast.Name)]:
+        nm = st.targets[0].id
+        used = {n.id for n in ast.walk(st.value) if isinstance(n, ast.Name)}
+        if used != {nm}:
+            continue
+        try:
+            tab = [ev.eval(st.value, {nm: v}) for v in range(65)]
+        except (Unknown, Raised):
+            continue
+        if tab == list(range(65)):
+            continue
+        at = st
+        ok = tab == [(v + 7) // 8 * 8 for v in range(65)]
+        why = f"`{unparse(st)}` for sizes 0..64 gives " + (
+            "the next multiple of 8" if ok else str(tab[:10]) + "...")
     chk.ob("R08.5", A + "ArrayMap.collect", "map size is rounded up to 8",
-           ok, col, "((position + 7) // 8) * 8")
+           ok, at, why)
 
 
 def values(chk, repo):
